@@ -162,7 +162,7 @@ func logStr(l *raft.Log) string {
 }
 
 func execC15(r *Run) {
-	dir, err := os.MkdirTemp("/dev/shm", "qedsim-c15-")
+	dir, err := os.MkdirTemp(scratchBase(), "qedsim-c15-")
 	if err != nil {
 		r.Bug("mkdtemp: %v", err)
 	}
